@@ -164,6 +164,8 @@ def table_update(R, cfg, b, old_tok, new_tok):
             l, pr = pl['l'], pl['p']
             if l == 1 and pr == ['deref']:
                 return mem
+            if l == 1 and not pr:
+                return ('ref', 'self')
             if l == 2 and not pr:
                 return 'new'
             v = env.get(l)
@@ -236,10 +238,14 @@ def table_update(R, cfg, b, old_tok, new_tok):
                 fn = (t['func'].get('fn') or {}) if t['func'].get('k') == 'const' else {}
                 name, tr = fn.get('name'), fn.get('trait')
                 a = [val(x) for x in t['args']]
+                raw_args = list(a)
                 a = [x[1] if isinstance(x, tuple) else x for x in a]
                 a = [mem if x == 'self' else x for x in a]
                 r = None
-                if tr in ('std::cmp::PartialOrd', 'std::cmp::PartialEq') and name in ('gt', 'ge', 'lt', 'le', 'eq', 'ne') and len(a) == 2 \
+                if fn.get('def') == 'std::mem::replace' and len(raw_args) == 2 and raw_args[0] == ('ref', 'self') and raw_args[1] in ('old', 'new', 'same'):
+                    # mem::replace(self, v): the stored id becomes v, the previous one is returned
+                    r, mem = mem, raw_args[1]
+                elif tr in ('std::cmp::PartialOrd', 'std::cmp::PartialEq') and name in ('gt', 'ge', 'lt', 'le', 'eq', 'ne') and len(a) == 2 \
                         and all(x in ('old', 'new', 'same') for x in a):
                     x0, x1 = [('old' if x == 'same' else x) for x in a]
                     r = sym_cmp(name, x0, x1, rel if 'same' not in a else '=')
